@@ -118,7 +118,7 @@ def Err.str : Err → String
   | .vmPanic => "err:StringError"
   | .incoherent => "err:incoherent"
 
-inductive Fn | set | del | inc | fail | sum | both | half
+inductive Fn | set | del | inc | fail | sum | both | half | grab
   deriving DecidableEq, Repr
 
 inductive Script | ab | fail | noop | read
@@ -147,6 +147,7 @@ def realmFn (d : Db) (s : Slot) (f : Fn) (k : Nat) (v : Int) (dep : Bool) : Exce
   | .c, .inc => .ok { d with c := kvSetSorted d.c k ((kvGet d.c k).getD 0 + v) }
   | .h, .both => .ok { d with hn := d.hn + 1, a := kvSetSorted d.a k v, b := kvSetIns d.b k v }
   | .h, .half => .error .vmPanic
+  | .h, .grab => .ok d   -- stores two foreign-owned objects; nothing the dump shows
   | _, .fail => .error .vmPanic
   | _, .sum => .ok d
   | _, _ => .error .vmPanic   -- not in the grammar (a function the realm does not have)
@@ -217,6 +218,8 @@ def restart (t : TxSt) : TxSt :=
 inductive Op
   | openCfgs (n : Nat)
   | tx (who : Nat) (lo : Bool) (msgs : List Msg)
+  | probe   -- a transaction with an arbitrary gas limit whose last message always fails: no effect
+
   | commit
   | restart
   | bad
@@ -238,6 +241,7 @@ structure World where
 /-- What one op line answers. -/
 inductive Out
   | ok
+  | probed
   | err (e : Err)
   | dump (height : Nat) (d : Db)
   | badop
@@ -252,6 +256,7 @@ def showDb (d : Db) : String :=
 
 def Out.str : Out → String
   | .ok => "ok"
+  | .probed => "probed"
   | .err e => e.str
   | .dump h d => s!"h={h} {showDb d}"
   | .badop => "err:badop"
@@ -272,6 +277,7 @@ def stepG (txf : TxFn) (p : Pattern) (w : World) : Op → World × Out
     let r := txf who lo msgs w.st
     ({ w with st := r.1, boundary := false, opened := true },
       match r.2 with | none => .ok | some e => .err e)
+  | .probe => ({ w with boundary := false, opened := true }, .probed)
   | .commit =>
     ({ w with st := if p.after w.height then restart w.st else w.st,
               height := w.height + 1, boundary := true, opened := true },
@@ -347,6 +353,7 @@ def specStep (w : SWorld) : Op → SWorld × Out
     let r := specTx who lo msgs w.db
     ({ w with db := r.1, boundary := false, opened := true },
       match r.2 with | none => .ok | some e => .err e)
+  | .probe => ({ w with boundary := false, opened := true }, .probed)
   | .commit =>
     ({ w with height := w.height + 1, boundary := true, opened := true }, .dump w.height w.db)
 
@@ -434,6 +441,48 @@ collected from a map, sorted, and applied to the parent in key order (`none` = d
 def flush {σ : Type} (apply : σ → List Nat × Option (List Nat) → σ) (parent : σ)
     (dirty : List (List Nat × Option (List Nat))) : σ :=
   (dirty.mergeSort fun x y => pathLe x.1 y.1).foldl apply parent
+
+/-! ## Part 2b — gas charged inside a map range (realm.go:569, FINDING)
+
+`FinalizeRealmTransaction` ends with
+`for _, fr := range rlm.touchedForeignRealms { …; store.SetPackageRealm(fr) }`;
+`SetPackageRealm` charges amino-encode and store-write gas proportional to the
+record's size.  `basicGasMeter.ConsumeGas` (tm2/pkg/store/types/gas.go:214) adds
+the amount FIRST ("consume gas even if out of gas") and then panics if the limit is
+exceeded; `runTx` reports `GasUsed = GasConsumed()` and charges the block meter with
+`GasConsumedToLimit()`. -/
+
+structure Meter where
+  limit : Nat
+  consumed : Nat
+  deriving DecidableEq, Repr
+
+/-- `ConsumeGas`: `.error` = the out-of-gas panic, carrying the meter as it is left. -/
+def Meter.consume (m : Meter) (g : Nat) : Except Meter Meter :=
+  let m' := { m with consumed := m.consumed + g }
+  if m'.consumed > m.limit then .error m' else .ok m'
+
+/-- The loop: one charge per enumerated entry, stopping at the first panic. -/
+def chargeAll : Meter → List Nat → Except Meter Meter
+  | m, [] => .ok m
+  | m, g :: gs =>
+    match m.consume g with
+    | .ok m' => chargeAll m' gs
+    | .error m' => .error m'
+
+/-- `GasConsumed()` after the loop: what `ResponseDeliverTx.GasUsed` reports. -/
+def gasUsed : Except Meter Meter → Nat
+  | .ok m => m.consumed
+  | .error m => m.consumed
+
+/-- `GasConsumedToLimit()`: what the block gas meter is charged. -/
+def gasToLimit : Except Meter Meter → Nat
+  | .ok m => min m.consumed m.limit
+  | .error m => min m.consumed m.limit
+
+def isOutOfGas : Except Meter Meter → Bool
+  | .ok _ => false
+  | .error _ => true
 
 /-! ## Part 3 — what the results hash covers (types/results.go) -/
 
